@@ -337,38 +337,7 @@ def run(ctx):
     common.check_bond_writers(ctx, 'C11.L1', prog)
 
     # ---------------------------------------------------------------- R5
-    stores = []
-    for m2, q2, f2 in prog.all_funcs():
-        for node in walk_no_nested(f2):
-            if isinstance(node, (ast.Assign, ast.AugAssign, ast.AnnAssign)):
-                tgts = node.targets if isinstance(node, ast.Assign) else [node.target]
-                for t in tgts:
-                    if isinstance(t, ast.Attribute) and t.attr == 'cysteine_bridge':
-                        stores.append((m2, q2, f2, node, t))
-    in_pair = [s for s in stores if s[2] is pair]
-    ctx.ob('C11.R5', 'bridge:only-pair-routine-writes',
-           len(in_pair) == len(stores),
-           'cysteine_bridge is written only by the pair routine of the bond maker '
-           '(writers: %s)' % sorted({s[0].name + '.' + s[1] for s in stores}),
-           stores[0][0] if stores else mod,
-           next((s[3] for s in stores if s[2] is not pair), pair))
-    true_stores = [s for s in in_pair if isinstance(s[3], ast.Assign)
-                   and isinstance(s[3].value, ast.Constant) and s[3].value.value is True]
-    pparams = [a.arg for a in pair.args.args if a.arg != 'self']
-    owners = sorted(dotted(s[4].value) or '?' for s in true_stores)
-    ctx.ob('C11.R5', 'bridge:both-atoms-flagged',
-           owners == sorted(pparams) and len(true_stores) == len(in_pair),
-           'both atoms of the pair get cysteine_bridge = True (owners: %s)' % owners,
-           mod, true_stores[0][3] if true_stores else pair)
-    if true_stores:
-        blocks = {id(s[3]._parent) for s in true_stores}
-        kinds5 = sorted(fact_kind(e, p) for e, p in facts_at(true_stores[0][3], pair))
-        want = {'criterion'} | {'sulfur:' + v for v in pparams}
-        ctx.ob('C11.R5', 'bridge:condition',
-               len(blocks) == 1 and want <= set(kinds5) and
-               set(kinds5) <= want | {'irreflexive', 'not-yet-bonded'},
-               'the flags are set in one block, under exactly the pair criterion and both '
-               'elements being sulfur (dominating facts: %s)' % kinds5, mod, true_stores[0][3])
+    common.check_bridge_flag_written(ctx, 'C11.R5', prog)
     ctx.need('C11.R5', 3)
     # consequence for titration (shared with C01.R5)
     common.check_bridge_not_titrated(ctx, 'C11.R5', prog)
